@@ -27,8 +27,8 @@ from ..export_prog import Unsupported, export_program, value_json
 
 # formats with a wide exponent range: titanfp's overflow under the directed modes is not IEEE's (it returns an infinity where the
 # largest finite number is due), so the comparison is kept away from overflow
-CTXS = ['fp.IEEEContext(4, 8)', 'fp.IEEEContext(4, 8, fp.RM.RTZ)', 'fp.IEEEContext(5, 10)', 'fp.IEEEContext(5, 9, fp.RM.RTP)',
-        'fp.IEEEContext(4, 9, fp.RM.RTN)', 'fp.IEEEContext(5, 11, fp.RM.RNE)', 'fp.IEEEContext(4, 7, fp.RM.RAZ)']
+CTXS = ['fp.IEEEContext(4, 8)', 'fp.IEEEContext(4, 8, fp.RM.RTZ)', 'fp.IEEEContext(4, 10)', 'fp.IEEEContext(4, 11, fp.RM.RTP)',
+        'fp.IEEEContext(4, 9, fp.RM.RTN)', 'fp.IEEEContext(4, 11, fp.RM.RNE)', 'fp.IEEEContext(4, 7, fp.RM.RAZ)']
 CONSTS = ['0.375', '3', '1.5', '2', '0.5', '5', '0.75', '1']
 
 
@@ -149,7 +149,7 @@ def hand_after_inner(x: fp.Real, y: fp.Real):
     return c''',
     'hand_sequential': '''@fp.fpy
 def hand_sequential(x: fp.Real, y: fp.Real):
-    with fp.IEEEContext(5, 10):
+    with fp.IEEEContext(4, 10):
         a = x / fp.round(3)
     with fp.IEEEContext(4, 8, fp.RM.RTP):
         b = a * y + x
@@ -160,7 +160,7 @@ def hand_sequential(x: fp.Real, y: fp.Real):
 def hand_nested_rne(x: fp.Real, y: fp.Real):
     with fp.IEEEContext(4, 8, fp.RM.RTZ):
         a = x / y
-        with fp.IEEEContext(5, 10):
+        with fp.IEEEContext(4, 10):
             b = a / y + x
             with fp.IEEEContext(4, 9, fp.RM.RTP):
                 c = b / fp.round(3)
@@ -168,16 +168,16 @@ def hand_nested_rne(x: fp.Real, y: fp.Real):
                     return (a, b, c, c / y)''',
     'hand_nested_rne2': '''@fp.fpy
 def hand_nested_rne2(x: fp.Real, y: fp.Real):
-    with fp.IEEEContext(5, 9, fp.RM.RTN):
+    with fp.IEEEContext(4, 10, fp.RM.RTN):
         if x > y:
             t = x / fp.round(3)
         else:
             t = y / fp.round(3)
-        with fp.IEEEContext(5, 9):
+        with fp.IEEEContext(4, 10):
             return t * t / fp.round(5)''',
     'hand_range_step': '''@fp.fpy
 def hand_range_step(x: fp.Real, y: fp.Real):
-    with fp.IEEEContext(5, 11):
+    with fp.IEEEContext(4, 11):
         acc = fp.round(0)
         for i in range(0, 5, 2):
             acc = acc * fp.round(2) + i + x
@@ -186,13 +186,13 @@ def hand_range_step(x: fp.Real, y: fp.Real):
         return acc''',
     'hand_nested_tuple': '''@fp.fpy
 def hand_nested_tuple(x: fp.Real, y: fp.Real):
-    with fp.IEEEContext(5, 11):
+    with fp.IEEEContext(4, 11):
         t = ((x, x + fp.round(1)), (y + fp.round(2), y + fp.round(3)))
         (a, b), (c, d) = t
         return (a * fp.round(2) + b, c * fp.round(3) + d, b - c)''',
     'hand_comp_tuple': '''@fp.fpy
 def hand_comp_tuple(x: fp.Real, y: fp.Real, xs: list[fp.Real]):
-    with fp.IEEEContext(5, 11):
+    with fp.IEEEContext(4, 11):
         u = sum([a * fp.round(2) + b for a, b in zip(xs, xs)])
         v = sum([i * x + e for i, e in enumerate(xs)])
         acc = y
@@ -201,13 +201,13 @@ def hand_comp_tuple(x: fp.Real, y: fp.Real, xs: list[fp.Real]):
         return (u, v, acc)''',
     'hand_comp_multi': '''@fp.fpy
 def hand_comp_multi(x: fp.Real, y: fp.Real, xs: list[fp.Real]):
-    with fp.IEEEContext(5, 11):
+    with fp.IEEEContext(4, 11):
         u = sum([a * x + b for a in xs for b in xs])
         w = sum([a + b * y - c for a in xs for b in xs for c in xs])
         return (u, w)''',
     'hand_target_shadow': '''@fp.fpy
 def hand_target_shadow(x: fp.Real, y: fp.Real, xs: list[fp.Real]):
-    with fp.IEEEContext(5, 11):
+    with fp.IEEEContext(4, 11):
         acc = fp.round(0)
         for x in xs:
             acc = acc + x
@@ -395,7 +395,7 @@ def run(tier: str) -> int:
     mm, skips = progrun.split_big(byp, mm, skips)
     def has_inf(j):
         if isinstance(j, dict):
-            return j.get('k') == 'inf' or any(has_inf(v) for v in j.values())
+            return j.get('k') in ('inf', 'nan') or any(has_inf(v) for v in j.values())      # (a NaN downstream of that infinity: inf / inf)
         if isinstance(j, list):
             return any(has_inf(v) for v in j)
         return False
